@@ -21,7 +21,6 @@
 (* clause is a design-level finding which the driver replays on the code.  *)
 (***************************************************************************)
 EXTENDS RelAlg, FactorsImpl, Json, TLCExt
-SX == INSTANCE SequencesExt
 
 (* ------------------------------ requirement ---------------------------- *)
 TableKeys(t) == [i \in DOMAIN t.cols |-> KeyOf(t, t.cols[i][1])]
@@ -64,8 +63,7 @@ AllScoped(hs) == \A i \in DOMAIN hs : Scoped(hs[i])
 CONSTANTS Family,      \* name of the statement family (see Stmts)
           Depth,       \* nesting depth of the generated predicates
           MaxRows,     \* rows per table
-          WithNull,    \* TRUE: cells range over {0, 1, NULL}, FALSE: over {0, 1}
-          Lo, Hi       \* slice of the statement sequence checked by this run (parallel slices)
+          WithNull     \* TRUE: cells range over {0, 1, NULL}, FALSE: over {0, 1}
 
 \* the small world: A(x, y), B(x), C(x), integers; literal dictionary of the model
 TA == Src("table", "A", "", <<<<"x", "int">>, <<"y", "int">>>>, NilS, NilS, NilF, <<>>, NilF, <<>>, NilF, <<>>, <<>>)
@@ -77,16 +75,21 @@ L1 == Feat("lit", NilS, "", "int", "1", "", <<>>)
 L0 == Feat("lit", NilS, "", "int", "0", "", <<>>)
 Ax == Col(TA, "x")  Ay == Col(TA, "y")  Bx == Col(TB, "x")  Cx == Col(TC, "x")  Rx == Col(RA, "x")
 
-Dom == IF WithNull THEN {0, 1, NULL} ELSE {0, 1}
-RowsOfWidth(n) == [1..n -> Dom]
-SeqsUpTo(S, n) == UNION {[1..k -> S] : k \in 0..n}
-\* bags as sorted sequences would be fewer; sequences up to permutation are kept: the bound is tiny
-NonDecr(s) == \A i \in 1..(Len(s) - 1) : \A j \in DOMAIN s[i] :
-                 (\A k \in 1..(j - 1) : s[i][k] = s[i + 1][k]) => s[i][j] <= s[i + 1][j]
-Contents(n) == {s \in SeqsUpTo(RowsOfWidth(n), MaxRows) : NonDecr(s)}
-DbSeq == SX!SetToSeq({[A |-> a, B |-> b, C |-> c] : a \in Contents(2), b \in Contents(1), c \in Contents(1)})
+DomSeq == IF WithNull THEN <<0, 1, NULL>> ELSE <<0, 1>>
+\* every database with <= MaxRows rows per table, built as SEQUENCES (bags = non-decreasing tuples of row numbers)
+RECURSIVE RowSeq(_), BagSeq(_, _, _)
+RowSeq(n) == IF n = 0 THEN <<<<>>>>
+             ELSE Flat([i \in DOMAIN DomSeq |-> [j \in DOMAIN RowSeq(n - 1) |-> <<DomSeq[i]>> \o RowSeq(n - 1)[j]]])
+BagSeq(rows, k, lo) ==        \* all bags of exactly k rows whose row numbers are >= lo
+    IF k = 0 THEN <<<<>>>>
+    ELSE Flat([i \in 1..(Len(rows) - lo + 1) |->
+                 LET r == lo + i - 1 rest == BagSeq(rows, k - 1, r) IN [j \in DOMAIN rest |-> <<rows[r]>> \o rest[j]]])
+ContentSeq(n) == Flat([k \in 1..(MaxRows + 1) |-> BagSeq(RowSeq(n), k - 1, 1)])
+CA == ContentSeq(2)
+CB == ContentSeq(1)
+DbSeq == Flat([a \in DOMAIN CA |-> Flat([b \in DOMAIN CB |-> [c \in DOMAIN CB |-> [A |-> CA[a], B |-> CB[b], C |-> CB[c]]]])])
 \* statements over two tables never look at C: one content of C is enough for them
-DbSeq2 == SX!SetToSeq({[A |-> a, B |-> b, C |-> <<>>] : a \in Contents(2), b \in Contents(1)})
+DbSeq2 == Flat([a \in DOMAIN CA |-> [b \in DOMAIN CB |-> [A |-> CA[a], B |-> CB[b], C |-> <<>>]]])
 
 \* predicates: atoms over one table, over two tables, over a table and its reference
 RECURSIVE Preds(_, _)
@@ -127,25 +130,23 @@ Stmts ==
                 c1 \in {Eq(Ax, Bx), Lt(Ax, Bx)}, c2 \in {Eq(Bx, Cx), Op("and", <<Lt(Ax, Cx), Eq(Cx, L1)>>)},
                 w \in {NilF} \cup Preds({Eq(Ax, L1), Eq(Cx, L1)}, Depth)}
       [] OTHER -> {}
-StmtSeq == SX!SetToSeq(Stmts)
-NStmts == Len(StmtSeq)
 Dbs == IF Family = "three" THEN DbSeq ELSE DbSeq2
 
-VARIABLES sid,      \* index of the statement under judgement
+VARIABLES stmt,     \* the statement under judgement
           dbi,      \* number of databases judged so far
           unsafe,   \* how many of them the as-is hints were unsafe on
           first     \* the first such database (0: none)
-vars == <<sid, dbi, unsafe, first>>
-Stmt == StmtSeq[sid]
+vars == <<stmt, dbi, unsafe, first>>
+Stmt == stmt
 Impl == ImplHints(Stmt)
-Init == sid \in Lo..Min2(Hi, NStmts) /\ dbi = 0 /\ unsafe = 0 /\ first = 0
+Init == stmt \in Stmts /\ dbi = 0 /\ unsafe = 0 /\ first = 0
 \* one step per database: the universally quantified db of Safe
 NextDb == /\ dbi < Len(Dbs)
           /\ dbi' = dbi + 1
           /\ LET ok == Impl.crash # "" \/ SafeOn(Stmt, Impl.hints, Dbs[dbi + 1]) IN
                 /\ unsafe' = unsafe + (IF ok THEN 0 ELSE 1)
                 /\ first' = IF ~ok /\ first = 0 THEN dbi + 1 ELSE first
-          /\ UNCHANGED sid
+          /\ UNCHANGED stmt
 Next == NextDb
 Spec == Init /\ [][Next]_vars
 
@@ -160,10 +161,10 @@ ImplSafe == unsafe = 0
 \* verdict of a statement once every database was judged
 Export ==
     dbi = Len(Dbs) =>
-        PrintT(ToJson([sid |-> sid, ast |-> Stmt,
+        PrintT(ToJson([ast |-> Stmt,
                        verdict |-> <<Impl.crash, B(ImplScoped), B(ImplComplete), unsafe, first>>,
                        hints |-> [h \in DOMAIN Impl.hints |->
                                      [path |-> Impl.hints[h].path, table |-> Impl.hints[h].table.name,
                                       cols |-> Impl.hints[h].cols, factors |-> Impl.hints[h].factors]]]))
-Post == PrintT(<<"FAMILY", NStmts, Len(Dbs), TLCGet("distinct")>>)
+Post == PrintT(<<"FAMILY", Cardinality(Stmts), Len(Dbs), TLCGet("distinct")>>)
 =============================================================================
